@@ -158,6 +158,12 @@ class solve_torchfcn(torch.autograd.Function):
             with A.uselinopparams(*params), M.uselinopparams(*mparams) if M is not None else dummy_context_manager():
                 x = method_fcn(A, B, E, M, **config)
 
+        # the output of an autograd function must be a new tensor: a method may
+        # hand back one of its inputs (e.g. B when the operator is the identity),
+        # which would be saved below as that input, without its dependence on A
+        if any(x is p for p in (B, E, *all_params)):
+            x = x.clone()
+
         ctx.e_is_none = E is None
         ctx.A = A
         ctx.M = M
